@@ -154,3 +154,26 @@ pub fn module_items_sexpr(module: &str, names: &[&str]) -> Result<Vec<(String, S
     }
     Ok(out)
 }
+
+/// the elements of a list of quantities: (bits of the value in base units, bits of the plain value,
+/// the unit as numbat prints it); `None` if the value is not a list of quantities
+pub fn list_quantities(v: &crate::value::Value) -> Option<Vec<(u64, u64, String)>> {
+    if let crate::value::Value::List(l) = v {
+        let mut out = Vec::new();
+        for e in l.iter() {
+            if let crate::value::Value::Quantity(q) = e {
+                let base = q.to_base_unit_representation();
+                out.push((
+                    base.unsafe_value().to_f64().to_bits(),
+                    q.unsafe_value().to_f64().to_bits(),
+                    q.unit().to_string(),
+                ));
+            } else {
+                return None;
+            }
+        }
+        Some(out)
+    } else {
+        None
+    }
+}
